@@ -295,8 +295,12 @@ func readB(pj *simdjson.ParsedJson) (out []abs.Value, err error) {
 	b := newBudget(pj)
 	err = pj.ForEach(func(i simdjson.Iter) error {
 		b.step()
+		pos := i
 		v, err := valueB(&i, i.Type(), b)
 		if err != nil {
+			return err
+		}
+		if err := ifaceAgrees(pos, v, b, "ParsedJson.ForEach"); err != nil {
 			return err
 		}
 		out = append(out, v)
